@@ -48,8 +48,14 @@ def check_c06(tier):
     for c in list(cases.values())[:2] + list(cases.values())[-1:]:
         rep.sample({"ver": c["ver"], "note": c["note"], "signers": len(c["chains"]), "newerr": c["newerr"], "results": [r["state"] for r in c["results"]]})
     # negative control
-    lines = [json.loads(l) for l in open(p).readlines()[:400]]
-    good = [c for c in lines if c["honest"] and not c["newerr"] and any(r["state"] == "ok" and r["payload"] for r in c["results"])][0]
+    good = None
+    for l in open(p):
+        c = json.loads(l)
+        if c["honest"] and not c["newerr"] and any(r["state"] == "ok" and r["payload"] for r in c["results"]):
+            good = c
+            break
+    if good is None:
+        raise Infra("no honest verified history with a non-empty payload to build the negative control from")
     i = [k for k, r in enumerate(good["results"]) if r["state"] == "ok" and r["payload"]][0]
     b1 = json.loads(json.dumps(good)); b1["case"] = "neg1"; b1["results"][i]["payload"][0] ^= 1
     b2 = json.loads(json.dumps(good)); b2["case"] = "neg2"; b2["signed"] = []
